@@ -525,4 +525,8 @@ theorem nonvanishing_of_nzCount (W : Inputs) (hints : List Nat) (p : Prog) (n : 
   obtain ⟨⟨i', v⟩, hiv, rfl⟩ := List.mem_map.1 hmem
   exact ⟨v, hiv, hnz _ hiv⟩
 
+/-- `ast_nz f` proves `nzCount W hints f = some n` by kernel evaluation, chunk by chunk -/
+macro "ast_nz " f:ident : tactic =>
+  `(tactic| (unfold Swiftness.Ast.Fast.nzCount $f; (try simp only [nzGo_append]); decide +kernel))
+
 end Swiftness.Proofs.AstFast
